@@ -1060,7 +1060,8 @@ HISTORY_STEPS = [
 
 
 @st.composite
-def history_program(draw, max_steps=14, max_elems=16, with_shape_assign=True, with_fail=False, flagged_views=False):
+def history_program(draw, max_steps=14, max_elems=16, with_shape_assign=True, with_fail=False, flagged_views=False,
+                    allow_guard_off=True):
     b = Builder(draw, max_elems=max_elems, allow_int=False)
     if flagged_views:
         # view ops may carry an explicit constant= flag.  "all": True and False (C04: values/sharing do not depend on
@@ -1090,7 +1091,7 @@ def history_program(draw, max_steps=14, max_elems=16, with_shape_assign=True, wi
     # the process-wide memory-guard switch may be flipped at drawn points of the history (values, sharing and
     # gradients must not depend on it)
     # (only for the history as a whole: flipping the switch while graphs are alive is not a documented use)
-    guard_mode = draw(st.sampled_from(["on", "on", "on", "off"]))
+    guard_mode = draw(st.sampled_from(["on", "on", "on", "off"])) if allow_guard_off else "on"
     if guard_mode == "off":
         b.stmts.append({"k": "guard", "on": False})
         b.labels.add("mem_guard_off")
